@@ -632,13 +632,53 @@ func checkUniqueSelectors(w *World, r *Result) {
 		}
 		return true
 	})
+	// the same exclusion as a search: `slices.ContainsFunc(ta.ForeignKeys(), func(key) bool { return key… == name })`
+	var search *ast.CallExpr
+	searchWhole := false
 	if loop == nil || excl == nil {
-		Undecided("AGR-C01u: AdditionalUniqueCols no longer builds its exclusion set from a loop over ForeignKeys()")
+		fromFK := func(e ast.Expr) bool {
+			if call, ok := ast.Unparen(e).(*ast.CallExpr); ok && calleeOf(info, call) == fkMethod {
+				return true
+			}
+			if id := identOf(e); id != nil {
+				ds := defsIn(info, au.Decl, objOf(info, id))
+				if len(ds) == 1 {
+					if call, ok := ast.Unparen(ds[0]).(*ast.CallExpr); ok && calleeOf(info, call) == fkMethod {
+						return true
+					}
+				}
+			}
+			return false
+		}
+		ast.Inspect(au.Decl.Body, func(x ast.Node) bool {
+			call, ok := x.(*ast.CallExpr)
+			if !ok || len(call.Args) != 2 {
+				return true
+			}
+			if f := fullName(calleeOf(info, call)); (f == "slices.ContainsFunc" || f == "slices.IndexFunc") && fromFK(call.Args[0]) {
+				search = call
+				if body, _, _ := callbackOf(w, au, call.Args[1]); body != nil && len(body.List) == 1 {
+					if ret, ok := body.List[0].(*ast.ReturnStmt); ok && len(ret.Results) == 1 {
+						if be, ok := ast.Unparen(ret.Results[0]).(*ast.BinaryExpr); ok && be.Op == token.EQL {
+							searchWhole = true // one equality on the element: every foreign key takes part
+						}
+					}
+				}
+			}
+			return true
+		})
+		if search == nil {
+			Undecided("AGR-C01u: AdditionalUniqueCols no longer builds its exclusion set from a loop over ForeignKeys()")
+		}
+		r.cond(searchWhole, "AGR-C01u", au.Name, "every foreign key is excluded from the generic unique selectors", w.Pos(search.Pos()),
+			"the exclusion test searches all of ForeignKeys() with a single equality on the element",
+			"the search over ForeignKeys() has a predicate that is more than one equality: some foreign keys are left out of the exclusion, and for such a key under a single-column UNIQUE constraint Select<T>By<Field> is declared twice")
+	} else {
+		conds := condSet(info, pathCondsNoLoop(au, excl), nil)
+		r.cond(len(conds) == 0, "AGR-C01u", au.Name, "every foreign key is excluded from the generic unique selectors", w.Pos(excl.Pos()),
+			"the exclusion set gets every element of ForeignKeys(), unconditionally",
+			"a foreign key is left out of the exclusion set when {"+strings.Join(conds, ", ")+"}: for such a key under a single-column UNIQUE constraint, Select<T>By<Field> is declared both by the foreign-key loop and by generateSelectByUniques (redeclared identifier)")
 	}
-	conds := condSet(info, pathCondsNoLoop(au, excl), nil)
-	r.cond(len(conds) == 0, "AGR-C01u", au.Name, "every foreign key is excluded from the generic unique selectors", w.Pos(excl.Pos()),
-		"the exclusion set gets every element of ForeignKeys(), unconditionally",
-		"a foreign key is left out of the exclusion set when {"+strings.Join(conds, ", ")+"}: for such a key under a single-column UNIQUE constraint, Select<T>By<Field> is declared both by the foreign-key loop and by generateSelectByUniques (redeclared identifier)")
 	// the foreign-key loops of sqlcrud
 	n := 0
 	for _, fi := range sortedFuncs(w) {
